@@ -15,6 +15,7 @@ import (
 	"context"
 	"crypto"
 	"crypto/ecdsa"
+	"crypto/ed25519"
 	"crypto/elliptic"
 	"crypto/rand"
 	"crypto/x509"
@@ -28,6 +29,7 @@ import (
 	"fmt"
 	"io"
 	"log"
+	"net"
 	"net/http"
 	"net/http/httptest"
 	"os"
@@ -35,6 +37,7 @@ import (
 	"strings"
 	"time"
 
+	nebula "github.com/slackhq/nebula/cert"
 	"go.step.sm/crypto/jose"
 	"go.step.sm/crypto/minica"
 	"go.step.sm/crypto/x509util"
@@ -73,7 +76,7 @@ type Case struct {
 var (
 	issueKinds = []string{"both", "dbonly", "extonly", "none", "badext", "badext+db"}
 	states     = []string{"present", "removed", "replaced", "renamed", "uninit", "base", "typed"}
-	ptypes     = []string{"ACME", "X5C", "K8sSA", "AWS"}
+	ptypes     = []string{"ACME", "X5C", "K8sSA", "AWS", "OIDC", "GCP", "Azure", "Nebula"}
 	customs    = []string{"n", "a", "r"}
 	times      = []string{"valid", "nyv", "expired"}
 	revs       = []string{"no", "yes", "err"}
@@ -92,6 +95,7 @@ type world struct {
 	key2    *jose.JSONWebKey // key of the provisioner that replaces p
 	issuers map[string]*fixture.CA
 	renewer map[string]*fixture.CA
+	idp     *httptest.Server // local identity provider: OpenID configuration + key set
 }
 
 // errRevDB makes the revocation lookup fail, everything else passes through.
@@ -177,6 +181,17 @@ func newWorld() *world {
 		panic(err)
 	}
 	w.key1, w.key2 = newKey(), newKey()
+	idpKey := newKey().Public()
+	mux := http.NewServeMux()
+	w.idp = httptest.NewServer(mux)
+	mux.HandleFunc("/.well-known/openid-configuration", func(rw http.ResponseWriter, _ *http.Request) {
+		json.NewEncoder(rw).Encode(map[string]any{"issuer": w.idp.URL, "jwks_uri": w.idp.URL + "/keys",
+			"authorization_endpoint": w.idp.URL + "/auth", "token_endpoint": w.idp.URL + "/token"})
+	})
+	mux.HandleFunc("/keys", func(rw http.ResponseWriter, _ *http.Request) {
+		rw.Header().Set("Cache-Control", "max-age=3600")
+		json.NewEncoder(rw).Encode(map[string]any{"keys": []any{idpKey}})
+	})
 	noExt := &provisioner.Claims{DisableSmallstepExtensions: bp(true)}
 	bad := &provisioner.Options{X509: &provisioner.X509Options{Template: badExtTemplate}}
 	w.issuers["both"] = w.build(provisioner.List{jwkProv(w.key1, nil, nil)}, true, false)
@@ -189,6 +204,7 @@ func newWorld() *world {
 }
 
 func (w *world) close() {
+	w.idp.Close()
 	w.shared.Shutdown()
 	os.RemoveAll(w.dir)
 }
@@ -226,6 +242,31 @@ func (w *world) renewAuthority(c Case) *fixture.CA {
 				PubKeys: pem.EncodeToMemory(&pem.Block{Type: "PUBLIC KEY", Bytes: spki})}}
 		case "AWS":
 			provs = provisioner.List{&provisioner.AWS{Type: "AWS", Name: provName, Accounts: []string{"123456789012"}, Claims: claims}}
+		case "Nebula":
+			pub, priv, _ := ed25519.GenerateKey(rand.Reader)
+			_, ipn, _ := net.ParseCIDR("10.1.0.0/16")
+			nc := &nebula.NebulaCertificate{Details: nebula.NebulaCertificateDetails{Name: "c09 nebula ca", Ips: []*net.IPNet{ipn},
+				NotBefore: time.Now().Add(-time.Minute), NotAfter: time.Now().Add(time.Hour), PublicKey: pub, IsCA: true, Curve: nebula.Curve_CURVE25519}}
+			if err := nc.Sign(nebula.Curve_CURVE25519, priv); err != nil {
+				panic(err)
+			}
+			ncPEM, err := nc.MarshalToPEM()
+			if err != nil {
+				panic(err)
+			}
+			provs = provisioner.List{&provisioner.Nebula{Type: "Nebula", Name: provName, Roots: ncPEM, Claims: claims}}
+		case "OIDC":
+			// the three identity-provider backed types read their keys from a local server at Init
+			provs = provisioner.List{&provisioner.OIDC{Type: "OIDC", Name: provName, ClientID: "c09", ClientSecret: "x",
+				ConfigurationEndpoint: w.idp.URL + "/.well-known/openid-configuration", Claims: claims}}
+		case "GCP":
+			g := &provisioner.GCP{Type: "GCP", Name: provName, ServiceAccounts: []string{"sa"}, ProjectIDs: []string{"p"}, Claims: claims}
+			provisioner.VerifSetGCPCertsURL(g, w.idp.URL+"/keys")
+			provs = provisioner.List{g}
+		case "Azure":
+			z := &provisioner.Azure{Type: "Azure", Name: provName, TenantID: "tenant", Claims: claims}
+			provisioner.VerifSetAzureDiscoveryURL(z, w.idp.URL+"/.well-known/openid-configuration")
+			provs = provisioner.List{z}
 		}
 	case "renamed":
 		// the recorded provisioner (same id) now has another name and the claims of the case; a
